@@ -90,6 +90,18 @@ type target2 struct {
 	want   gtype // type expected of an untyped result / declared result type
 	panics bool  // result is Option: none = the Go code panics (division by zero)
 	note   string
+	// calls `<expr>.<Method>(args)` of translated methods (kind whole, with receiver) are allowed on these
+	// receiver expressions; the callee's receiver-field parameters are passed on from the caller's
+	// parameters of the same name and type
+	methods []methodRecv
+}
+
+// methodRecv: `expr` (source text, e.g. "c.slot") is the struct field `field` ("Struct.field") of the
+// target's package, declared with type `typ` ("*validator.BlockSlot"); methods of receiver `recv`
+// declared in `file` may be called on it
+type methodRecv struct {
+	expr, field, typ string
+	file, recv       string
 }
 
 func p(name string, ty gtype) param              { return param{name: name, ty: ty} }
@@ -240,6 +252,29 @@ var targets2 = []target2{
 	{file: "pkg/consensus/validator/block_slot.go", recv: "BlockSlot", name: "GetSlotTime", lean: "getSlotTime", kind: "whole",
 		params: []param{p("slot", "int"), pf("genesisTimestamp", "uint32", "a.genesisTimestamp", "BlockSlot.genesisTimestamp"),
 			pf("blockTime", "uint32", "a.blockTime", "BlockSlot.blockTime")}},
+
+	// ---- C07: the slot calculator as a whole (constructor, slot number) and the wall-clock helpers of forkChoice --
+	// the constructor: what NewBlockSlot STORES (kind field with `panics`: Option, `none` = the constructor panics)
+	{file: "pkg/consensus/validator/block_slot.go", name: "NewBlockSlot", lean: "newBlockSlotGenesis", kind: "field", lit: "BlockSlot", sel: "genesisTimestamp", panics: true,
+		params: []param{p("genesisTimestamp", "uint32"), p("blockTime", "uint32")}},
+	{file: "pkg/consensus/validator/block_slot.go", name: "NewBlockSlot", lean: "newBlockSlotBlockTime", kind: "field", lit: "BlockSlot", sel: "blockTime", panics: true,
+		params: []param{p("genesisTimestamp", "uint32"), p("blockTime", "uint32")}},
+	{file: "pkg/consensus/validator/block_slot.go", recv: "BlockSlot", name: "GetSlotNumber", lean: "getSlotNumber", kind: "whole",
+		params: []param{p("unixTime", "uint32"), pf("genesisTimestamp", "uint32", "a.genesisTimestamp", "BlockSlot.genesisTimestamp"),
+			pf("blockTime", "uint32", "a.blockTime", "BlockSlot.blockTime")}},
+	{file: "pkg/consensus/forkchoice/fork_choice.go", recv: "forkChoice", name: "receivedBlockWithinForgingSlot", lean: "fcReceivedBlockWithinForgingSlot", kind: "whole",
+		params: []param{ps("receivedAt", "uint32", "uint32(c.currentBlockReceivedAt.Unix())"), ps("timestamp", "uint32", "c.currentHeader.Timestamp"),
+			p("genesisTimestamp", "uint32"), p("blockTime", "uint32")},
+		methods: []methodRecv{{expr: "c.slot", field: "forkChoice.slot", typ: "*validator.BlockSlot", file: "pkg/consensus/validator/block_slot.go", recv: "BlockSlot"}}},
+	{file: "pkg/consensus/forkchoice/fork_choice.go", recv: "forkChoice", name: "receivedLastBlockWithinForgingSlot", lean: "fcReceivedLastBlockWithinForgingSlot", kind: "whole",
+		params: []param{ps("fromSync", "bool", "c.lastBlockReceivedAt == nil"), ps("receivedAt", "uint32", "uint32(c.lastBlockReceivedAt.Unix())"),
+			ps("timestamp", "uint32", "c.lastHeader.Timestamp"), p("genesisTimestamp", "uint32"), p("blockTime", "uint32")},
+		methods: []methodRecv{{expr: "c.slot", field: "forkChoice.slot", typ: "*validator.BlockSlot", file: "pkg/consensus/validator/block_slot.go", recv: "BlockSlot"}}},
+	{file: "pkg/consensus/forkchoice/fork_choice.go", recv: "forkChoice", name: "IsTieBreak", lean: "fcIsTieBreakTimed", kind: "ret",
+		params: []param{ps("duplicate", "bool", "c.isDuplicateBlock()"), ps("lastTimestamp", "uint32", "c.lastHeader.Timestamp"),
+			ps("timestamp", "uint32", "c.currentHeader.Timestamp"), ps("lastInSlot", "bool", "c.receivedLastBlockWithinForgingSlot()"),
+			ps("inSlot", "bool", "c.receivedBlockWithinForgingSlot()"), p("genesisTimestamp", "uint32"), p("blockTime", "uint32")},
+		methods: []methodRecv{{expr: "c.slot", field: "forkChoice.slot", typ: "*validator.BlockSlot", file: "pkg/consensus/validator/block_slot.go", recv: "BlockSlot"}}},
 
 	// ---- C15: pkg/generator ---------------------------------------------------------------------
 	{file: "pkg/generator/generator.go", recv: "Generator", name: "initBlockHeader", lean: "genNextHeight", kind: "rhs", sel: "nextHeight", tok: ":=",
@@ -707,14 +742,122 @@ func (t *tr2) absDiffFloat(e ast.Expr) (tv, bool) {
 	return tv{s: "(Int.ofNat (Int.natAbs ((Int.ofNat " + ops[0].s + ") - (Int.ofNat " + ops[1].s + "))))", ty: "int"}, true
 }
 
+// floorDivFloat recognises `math.Floor(float64(a) / float64(b))` for unsigned a, b of at most 32 bits.
+// float64 represents a and b exactly. For b ≠ 0 the IEEE quotient q' = fl(a/b) has the same floor as the
+// rational a/b: if b | a the quotient is an integer below 2^32 and exact; otherwise a/b lies at least 1/b
+// away from the integers around it while |q' - a/b| ≤ 2^-53 · a/b < 2^-21 / b, and the integers below
+// 2^32 are representable, so rounding cannot reach or cross one. Hence `int(math.Floor(…))` = a / b
+// (natural-number division). For b = 0 the quotient is +Inf (a > 0) or NaN (a = 0), math.Floor returns
+// it unchanged and the Go specification leaves the conversion to int implementation-dependent:
+// `f64FloorDivToInt` (prelude of Gen/Fns2.lean) gives the value produced on amd64 (CVTTSD2SQ returns the
+// "integer indefinite" -2^63 for both); the C07 harness compares it with the platform it runs on.
+func (t *tr2) floorDivFloat(e ast.Expr) (tv, bool) {
+	c, ok := e.(*ast.CallExpr)
+	if !ok || len(c.Args) != 1 || types.ExprString(c.Fun) != "math.Floor" {
+		return tv{}, false
+	}
+	arg := c.Args[0]
+	for {
+		pe, ok := arg.(*ast.ParenExpr)
+		if !ok {
+			break
+		}
+		arg = pe.X
+	}
+	be, ok := arg.(*ast.BinaryExpr)
+	if !ok || be.Op != token.QUO {
+		return tv{}, false
+	}
+	var ops [2]tv
+	for i, o := range []ast.Expr{be.X, be.Y} {
+		fc, ok := o.(*ast.CallExpr)
+		if !ok || len(fc.Args) != 1 || types.ExprString(fc.Fun) != "float64" {
+			return tv{}, false
+		}
+		v := t.expr(fc.Args[0])
+		if t.err != nil || !isUnsigned(v.ty) || bitsOf(v.ty) > 32 {
+			return tv{}, false
+		}
+		ops[i] = v
+	}
+	return tv{s: "(f64FloorDivToInt " + ops[0].s + " " + ops[1].s + ")", ty: "int"}, true
+}
+
+// methodCall translates `<recv expr>.<Method>(args)` for a receiver expression declared in the target's
+// `methods` and a method that is itself a translated target (kind whole, not `panics`): the Go arguments
+// become the callee's plain parameters, the callee's receiver-field parameters (`a.genesisTimestamp` …) are
+// taken from the caller's parameters of the same name, which must have the same type.
+func (t *tr2) methodCall(x *ast.CallExpr) (tv, bool) {
+	se, ok := x.Fun.(*ast.SelectorExpr)
+	if !ok {
+		return tv{}, false
+	}
+	recvText := types.ExprString(se.X)
+	for _, m := range t.tg.methods {
+		if m.expr != recvText {
+			continue
+		}
+		ft, ok := t.pkg.fieldType(m.field)
+		if !ok || ft != m.typ {
+			return t.fail(x, fmt.Sprintf("receiver %s: struct field %s has type %q, the target declares %q", m.expr, m.field, ft, m.typ)), true
+		}
+		for i := range targets2 {
+			cal := &targets2[i]
+			if cal.kind != "whole" || cal.panics || cal.file != m.file || cal.recv != m.recv || cal.name != se.Sel.Name {
+				continue
+			}
+			if cal.want == "" {
+				return t.fail(x, "method "+se.Sel.Name+" must be translated before its caller"), true
+			}
+			args := []string{}
+			j := 0
+			for _, pr := range cal.params {
+				if pr.src == "" {
+					if j >= len(x.Args) {
+						return t.fail(x, "call arity of "+se.Sel.Name), true
+					}
+					v := t.expr(x.Args[j])
+					j++
+					if v.ty == untyped {
+						v = t.coerce(x, v, pr.ty)
+					}
+					if v.ty != pr.ty {
+						return t.fail(x, fmt.Sprintf("argument of %s has type %s, the method takes %s", se.Sel.Name, v.ty, pr.ty)), true
+					}
+					args = append(args, v.s)
+					continue
+				}
+				ty, ok := t.env[pr.name]
+				if !ok || ty != pr.ty {
+					return t.fail(x, fmt.Sprintf("receiver field %s of %s is not a parameter of the target (type %s)", pr.name, se.Sel.Name, pr.ty)), true
+				}
+				args = append(args, lname(pr.name))
+			}
+			if j != len(x.Args) {
+				return t.fail(x, "call arity of "+se.Sel.Name), true
+			}
+			return tv{s: "(" + cal.lean + " " + strings.Join(args, " ") + ")", ty: cal.want}, true
+		}
+		return t.fail(x, "method "+se.Sel.Name+" of "+m.recv+" is not a translated target"), true
+	}
+	return tv{}, false
+}
+
 func (t *tr2) call(x *ast.CallExpr) tv {
 	// int(math.Abs(float64(a) - float64(b))): exact absolute difference
+	// int(math.Floor(float64(a) / float64(b))): exact floor of the quotient
 	if id, ok := x.Fun.(*ast.Ident); ok && id.Name == "int" && len(x.Args) == 1 {
 		if _, shadow := t.env[id.Name]; !shadow {
 			if v, ok := t.absDiffFloat(x.Args[0]); ok {
 				return v
 			}
+			if v, ok := t.floorDivFloat(x.Args[0]); ok {
+				return v
+			}
 		}
+	}
+	if v, ok := t.methodCall(x); ok {
+		return v
 	}
 	// conversion
 	if id, ok := x.Fun.(*ast.Ident); ok && len(x.Args) == 1 {
@@ -1184,6 +1327,7 @@ func genTyped(repo string) (string, error) {
 	b.WriteString("Go unsigned integers are `Nat` (every operation reduced modulo 2^n), Go `int`/`int64` are `Int` (every\noperation wrapped by `i64`), signed division and remainder truncate towards zero. Parameters of\nunsigned type are assumed to be below 2^n, parameters of signed type within the int64 range. -/\n")
 	b.WriteString("set_option linter.unusedVariables false\n\nnamespace LiskVerif.Gen\n\n")
 	b.WriteString("/-- two's complement wrap-around of Go `int` / `int64` -/\ndef i64 (x : Int) : Int := (x + 9223372036854775808) % 18446744073709551616 - 9223372036854775808\n\n")
+	b.WriteString("/-- `int(math.Floor(float64(a) / float64(b)))` for unsigned `a`, `b` of at most 32 bits: the exact floor of the\nquotient when `b ≠ 0` (see tools/fngen/typed.go `floorDivFloat`); for `b = 0` the float64 quotient is +Inf or NaN,\nwhose conversion to `int` the Go specification leaves implementation-dependent — this is the amd64 value -2^63 -/\ndef f64FloorDivToInt (a b : Nat) : Int := if b = 0 then -9223372036854775808 else Int.ofNat (a / b)\n\n")
 	for i := range targets2 {
 		tg := &targets2[i]
 		path := filepath.Join(repo, tg.file)
@@ -1570,6 +1714,16 @@ func (t *tr2) gen(f *ast.File, fd *ast.FuncDecl) string {
 		v := t.translateSel(fd, "field "+tg.sel+" of a "+tg.lit+" literal", cands, func(e ast.Expr) tv { return t.expr(e) })
 		if t.err != nil {
 			return ""
+		}
+		if tg.panics && v.ty != untyped {
+			// Option result whether or not something can panic in the CURRENT source (the stored value of a
+			// constructor must stay translatable when arithmetic is added to it): none = the Go code panics
+			body := "  some (" + v.s + ")"
+			if pc := t.takePanics(); pc != "" {
+				body = "  if " + pc + " then\n    none\n  else\n    some (" + v.s + ")"
+			}
+			return t.def(fd, t.occ("field `"+tg.sel+"` of the composite literal `"+tg.lit+"{…}`")+" ("+string(v.ty)+"); `none` = the Go code panics (division by zero, negative shift count)",
+				tg.lean, t.paramList(), "Option "+leanTy(v.ty), body)
 		}
 		if v.ty == untyped || len(t.panics) > 0 {
 			return t.fail(fd, "field value is an untyped constant or may panic").s
